@@ -761,17 +761,22 @@ pub fn run(tier: Tier) -> i32 {
         prop: "C05",
         tier,
         level: "model_checking",
-        rule: format!("(a) every record AST of the line space ({} lines: identifiers x numbers x every combination of the optional groups) printed and parsed alone with terminators none/LF/CRLF/LFLF and inside a file (LF, CRLF) - the record must have exactly the AST's parts; (b) every documented malformation of those lines (all non-method lines, every 7th method line) must be an error carrying the offending line, alone and inside a file without disturbing the neighbours; (c) every string of <= {} tokens over the 12-token alphabet against an independent recogniser of the documented grammar (in grammar => Ok with the recogniser's captures; documented malformation => Err; otherwise no claim); (d) every line of the corpus parsed alone vs in its file; (e) five kinds of well-formed line after 99..100001 consecutive malformed lines. states = lines / malformed lines / token strings; distinct = distinct printed lines or recognised records", nlines, tok_depth),
+        rule: format!("(a) every record AST of the line space ({} lines: identifiers x numbers x every combination of the optional groups) printed and parsed alone with terminators none/LF/CRLF/LFLF and inside a file (LF, CRLF) - the record must have exactly the AST's parts; (b) every documented malformation of those lines (all non-method lines, every 7th method line) must be an error carrying the offending line, alone and inside a file without disturbing the neighbours; (c) every string of <= {} tokens over the 12-token alphabet against an independent recogniser of the documented grammar (in grammar => Ok with the recogniser's captures; documented malformation => Err; otherwise no claim); (d) every line of the corpus parsed alone vs in its file; (e) five kinds of well-formed line after 99..100001 consecutive malformed lines; (f) the record iterator's protocol: on every file of <= 4 lines over an 8-line alphabet x 4 terminators, nth / skip / step_by / last / count / size_hint must agree with repeated next(). states = lines / malformed lines / token strings; distinct = distinct printed lines or recognised records", nlines, tok_depth),
         bounds: json!({"line_space": nlines, "token_depth": tok_depth, "tokens": C_TOKENS, "identifiers": IDENTS, "numbers": NUMS}),
         assumptions: vec!["the recogniser's NAME is deliberately narrower than what the parser accepts (no leading digit, no ',', no leading/trailing/doubled '.'); outside it no claim is made".into()],
         trusted_base: vec!["rustc/std".into(), "AST printer pgmc/src/ast.rs".into(), "independent recogniser in pgmc/src/props/c05.rs (no code shared with src/mapping.rs)".into()],
     };
+    // (f) the record iterator's protocol (shared with C06): positional access sees the records of repeated next()
+    let mut pa = Acc::new();
+    super::c06::protocol_family(&mut pa);
+    acc.merge(pa);
     finish(meta, acc, &budget, &|c| recheck(c))
 }
 
 pub fn recheck(case: &Value) -> Vec<String> {
     let mut acc = Acc::new();
     match case["kind"].as_str().unwrap_or("") {
+        "protocol" => super::c06::protocol_one(&unesc(case["text"].as_str().unwrap_or("")), &mut acc),
         "c05-line" => check_line(&Line::from_json(&case["line"]), &mut acc),
         "c05-malformed" => check_malformed(&Line::from_json(&case["from"]), &mut acc),
         "c05-token" => check_token_string(case["text"].as_str().unwrap_or(""), &mut acc),
